@@ -46,7 +46,7 @@ def leaves(tier):
     return out
 
 
-SMALL = ["x += b;", "y ^= b;", "RdV = x;", "x = x * 3;", "mem_store_u16((a & 0xf0), x);", ";"]
+SMALL = ["x += b;", "y ^= b;", "RdV = x;", "x = x * 3;", "mem_store_u16((a & 0xf0), x);", ";", "x++;", "y--;"]
 CONDS = ["a", "a < b", "x & 1", "!b", "(a & 3) == 1"]
 LOOPS = ["for (i = 0; i < 3; i++)", "for (i = 0; i < n; i++)", "for (i = n; i != 0; i--)", "for (i = 0; i < 0; i++)", "for (i = 0; i < (a & 3); i += 1)"]
 
